@@ -28,6 +28,9 @@ import (
 	"sync/atomic"
 	"time"
 
+	"bytes"
+
+	"tunnox-core/internal/client"
 	"tunnox-core/internal/utils/iocopy"
 	vc "tunnox-core/internal/verifharness/common"
 )
@@ -1078,6 +1081,115 @@ func execUDP(evs []uev, dgs [][]byte, utail string, tchunks [][]byte, ttail stri
 	}
 }
 
+// ---------------------------------------------------------------- SOCKS5 UDP tunnel codec
+
+// runS5: s5 <eof|err> ds <k> d*k cut <n> ch <k> sizes
+// The REAL udpTunnelConn.SendPacket produces the wire bytes; they are cut at `cut`, handed out in the
+// given read sizes (several records per Read when a size spans them) and read back by the REAL
+// udpTunnelConn.ReceivePacket until it fails.
+func runS5(toks []string) (string, error) {
+	if len(toks) < 4 || toks[2] != "ds" {
+		return "", errors.New("ds expected")
+	}
+	tailErr := toks[1] == "err"
+	k, err := strconv.Atoi(toks[3])
+	if err != nil || len(toks) < 4+k+4 {
+		return "", errors.New("bad datagram count")
+	}
+	var ds [][]byte
+	for i := 0; i < k; i++ {
+		b, err := parseBytes(toks[4+i])
+		if err != nil {
+			return "", err
+		}
+		ds = append(ds, b)
+	}
+	rest := toks[4+k:]
+	if rest[0] != "cut" || rest[2] != "ch" {
+		return "", errors.New("cut/ch expected")
+	}
+	cut, _ := strconv.Atoi(rest[1])
+	nch, _ := strconv.Atoi(rest[3])
+	var sizes []int
+	for i := 0; i < nch && 4+i < len(rest); i++ {
+		v, _ := strconv.Atoi(rest[4+i])
+		sizes = append(sizes, v)
+	}
+	type res struct {
+		obs string
+	}
+	ch := make(chan res, 1)
+	go func() {
+		defer func() {
+			if x := recover(); x != nil {
+				ch <- res{"panic " + strings.ReplaceAll(fmt.Sprint(x), " ", "_")}
+			}
+		}()
+		var wire bytes.Buffer
+		sender := client.VerifNewUDPTunnelConn(bytes.NewReader(nil), &wire)
+		for _, d := range ds {
+			if err := sender.SendPacket(d); err != nil {
+				ch <- res{"senderr " + strings.ReplaceAll(err.Error(), " ", "_")}
+				return
+			}
+		}
+		sender.Close()
+		w := append([]byte(nil), wire.Bytes()...)
+		stream := w
+		if cut < len(stream) {
+			stream = stream[:cut]
+		}
+		var cleanSizes []int
+		for _, sz := range sizes { // chunkBy skips zero sizes
+			if sz > 0 {
+				cleanSizes = append(cleanSizes, sz)
+			}
+		}
+		cr := vc.NewChunkReader(stream, cleanSizes, tailErr)
+		recv := client.VerifNewUDPTunnelConn(cr, io.Discard)
+		defer recv.Close()
+		var sb strings.Builder
+		n := 0
+		var pk []string
+		stop := ""
+		for {
+			d, err := recv.ReceivePacket()
+			if err != nil {
+				switch {
+				case strings.Contains(err.Error(), "failed to read packet length"):
+					stop = "len"
+				case strings.Contains(err.Error(), "failed to read packet data"):
+					stop = "data"
+				case strings.Contains(err.Error(), "packet too large"):
+					stop = "toolarge"
+				default:
+					stop = "other:" + strings.ReplaceAll(err.Error(), " ", "_")
+				}
+				break
+			}
+			n++
+			pk = append(pk, vc.Hex(d))
+			if n > len(stream)+2 {
+				stop = "runaway"
+				break
+			}
+		}
+		fmt.Fprintf(&sb, "wire %s pk %d", vc.Hex(w), n)
+		if n > 0 {
+			sb.WriteString(" " + strings.Join(pk, " "))
+		}
+		sb.WriteString(" stop " + stop)
+		ch <- res{sb.String()}
+	}()
+	select {
+	case r := <-ch:
+		return r.obs, nil
+	case <-time.After(watchdog):
+		timeouts.Add(1)
+		return "timeout", nil
+	}
+}
+
 // ---------------------------------------------------------------- executor
 
 type job struct {
@@ -1115,6 +1227,8 @@ func execLine(line string) string {
 		obs, err = runTCP(toks)
 	case "udp":
 		obs, err = runUDP(toks)
+	case "s5":
+		obs, err = runS5(toks)
 	default:
 		err = errors.New("unknown case kind")
 	}
@@ -1192,6 +1306,8 @@ func main() {
 		genTCP(r, rng, *tier == "thorough")
 		r.flush(*workers)
 		genUDP(r, rng, *tier == "thorough")
+		r.flush(*workers)
+		genS5(r, rng, *tier == "thorough")
 		r.flush(*workers)
 	}
 	out.Finish(*stats, map[string]any{"relay_timeouts": timeouts.Load(), "reruns_unscheduled_tick": unscheduledTicks.Load()})
